@@ -17,7 +17,7 @@ GOOD = [
     'PUSH nat 1', 'PUSH string "a"', 'DROP', 'DUP', 'SWAP', 'PUSH nat 2 ; ADD', 'UNIT', 'PUSH (pair nat string) (Pair 1 "x")',
     'EMPTY_BIG_MAP nat nat', 'EMPTY_BIG_MAP nat nat ; PUSH (option nat) (Some 7) ; PUSH nat 5 ; UPDATE',
     'PUSH (option nat) (Some 9) ; PUSH nat 6 ; UPDATE', 'DUP ; PUSH nat 5 ; GET', 'PUSH (option nat) None ; PUSH nat 5 ; GET_AND_UPDATE ; DROP',
-    'BEGIN 5 (Pair {} 0)', 'BEGIN 7 (Pair { Elt 1 1 } 3)', 'UNPAIR ; SWAP ; UNPAIR ; DIG 2 ; SOME ; PUSH nat 1 ; UPDATE ; PAIR ; NIL operation ; PAIR',
+    'BEGIN 5 (Pair {} 0)', 'BEGIN 7 (Pair { Elt 1 1 } 3)', 'BEGIN 3 (Pair 17 0)', 'RUN %default 4 (Pair 23 1)', 'UNPAIR ; SWAP ; UNPAIR ; DIG 2 ; SOME ; PUSH nat 1 ; UPDATE ; PAIR ; NIL operation ; PAIR',
     'COMMIT', 'RUN %default 5 (Pair {} 0)', 'RUN %default 2 (Pair { Elt 2 8 } 1)', 'PATCH AMOUNT 100', 'PATCH NOW 5', 'PATCH SENDER "tz1VSUr8wwNhLAzempoch5d6hLRiTh8Cjcjb"',
     'PATCH AMOUNT', 'AMOUNT', 'NOW', 'SENDER', 'BIG_MAP_DIFF', 'DUMP', 'DUMP 1', 'DROP_ALL', 'LAMBDA nat nat { PUSH nat 1 ; ADD } ; PUSH nat 1 ; EXEC',
     'PUSH nat 3 ; DIP { PUSH nat 4 }', 'parameter unit', 'storage nat',
@@ -38,6 +38,11 @@ BAD = [
     ('patch-then-fail', 'PATCH AMOUNT 5 ; UNIT ; FAILWITH'),
     ('parameter-then-fail', 'parameter string ; UNIT ; FAILWITH'),
     ('begin-then-fail', 'BEGIN 1 (Pair {} 0) ; UNIT ; FAILWITH'),
+    ('begin-by-id-then-fail', 'BEGIN 1 (Pair 5 0) ; UNIT ; FAILWITH'),
+    ('run-by-id-then-fail', 'RUN %default 1 (Pair 9 0) ; UNIT ; FAILWITH'),
+    ('dup-too-deep', 'DUP 9'),
+    ('dig-too-deep', 'DIG 9'),
+    ('nested-dip-fail', 'PUSH nat 1 ; PUSH nat 2 ; DIP 2 { DIP { UNIT ; FAILWITH } }'),
     ('run-then-fail', 'RUN %default 1 (Pair {} 0) ; UNIT ; FAILWITH'),
     ('commit-wrong-stack', 'PUSH nat 1 ; COMMIT'),
     ('begin-bad-storage', 'BEGIN 1 (Pair 5 {})'),
